@@ -5,7 +5,7 @@ From TV Require Import Base.Prelude Base.C09_Lib
   Spec.C09_Poly1305 Spec.C09_ChaCha Spec.C09_ChaChaPoly
   Base.C09_Oracle Gen.C09_KDF Model.C09_KeyCalc Spec.C09_KDF Spec.C09_KeyCalc
   Proofs.C09_Bits32 Proofs.C09_Poly1305 Proofs.C09_ChaCha Proofs.C09_ChaChaPoly Proofs.C09_KDF Proofs.C09_KeyCalc
-  Gen.C09_RC4 Gen.C09_AesModes Spec.C09_Modes Proofs.C09_Modes Gen.C09_GCM Proofs.C09_GCM Proofs.C09_CBC Proofs.C09_CTR
+  Gen.C09_RC4 Gen.C09_AesModes Spec.C09_Modes Proofs.C09_Modes Gen.C09_GCM Proofs.C09_GCM Proofs.C09_CBC Proofs.C09_CTR Spec.C09_AEAD Proofs.C09_GF128
   Toy.C09_ToyOracle.
 Import ListNotations.
 Open Scope list_scope.
@@ -308,3 +308,14 @@ Theorem ctr_eq_spec : forall O key,
                (skipn (List.length m) (ctr_blocks (bo_enc O key) t0 (Z.to_nat ((zlen m + 15) / 16)))),
       ctr_crypt_spec (bo_enc O key) 16 t0 m).
 Proof. exact ctr_encrypt_ok. Qed.
+
+(* gcm_mul_eq_gf128: for every object produced by AESGCM.__init__ (any key, any block-cipher oracle returning a
+   16-byte block for the zero block) the 4-bit table multiply _mul(y) is the SP 800-38D 6.3 product y . H in GF(2^128),
+   H = AES_K(0^128), for every 128-bit y.  Ingredients proved in Proofs/C09_GF128.v: multiplication by x is XOR-linear,
+   the 16-entry reduction table step = multiplication by x^4 (16 cases by vm_compute + linearity), the 16-entry product
+   table built by __init__ (symbolic evaluation) holds the products of the 4-bit polynomials with H. *)
+Theorem gcm_mul_eq_gf128 : forall O key impl raw g y,
+  (List.length (bo_enc O key (repeat 0 16)) = 16%nat /\ all_bytes (bo_enc O key (repeat 0 16)) = true) ->
+  gcm_init O key impl raw = Ok g -> 0 <= y < 2 ^ 128 ->
+  gcm_mul O g y = Ok (gf128_mul y (be_num (bo_enc O key (repeat 0 16)))).
+Proof. exact gcm_mul_eq_gf128_code. Qed.
